@@ -260,9 +260,18 @@ func (e *End) side() string {
 	return "server"
 }
 
+// peerName: TCP peers have distinct addresses; a unix-domain client that did not bind - all of
+// them, in practice - has none, and every accepted connection reports the same "@".
+func (e *End) peerName() string {
+	if e.p.net.netName(e.p.Target) == "unix" {
+		return "@"
+	}
+	return fmt.Sprintf("127.0.0.1:%d", 40000+e.p.ID)
+}
+
 func (e *End) LocalAddr() Addr {
 	if e.client {
-		return addr{e.p.net.netName(e.p.Target), fmt.Sprintf("client%d", e.p.ID)}
+		return addr{e.p.net.netName(e.p.Target), e.peerName()}
 	}
 	return addr{e.p.net.netName(e.p.Target), e.p.Target}
 }
@@ -270,7 +279,7 @@ func (e *End) RemoteAddr() Addr {
 	if e.client {
 		return addr{e.p.net.netName(e.p.Target), e.p.Target}
 	}
-	return addr{e.p.net.netName(e.p.Target), fmt.Sprintf("client%d", e.p.ID)}
+	return addr{e.p.net.netName(e.p.Target), e.peerName()}
 }
 func (e *End) SetDeadline(t time.Time) error      { e.rdl, e.wdl = t, t; e.poke(); return nil }
 func (e *End) SetReadDeadline(t time.Time) error  { e.rdl = t; e.poke(); return nil }
